@@ -56,15 +56,17 @@ pub(crate) fn extract_doc_comments(attrs: &[Attribute]) -> Vec<String> {
     for attr in attrs {
         if attr.path().is_ident("doc") {
             // Try different parsing methods
+            // `/// text` reaches us as " text": the blank after the slashes is not part of the
+            // comment (an IDL comment is rendered as `# text` and parsed without it).
             if let Ok(lit_str) = attr.parse_args::<syn::LitStr>() {
-                comments.push(lit_str.value());
+                comments.push(lit_str.value().trim().to_string());
             } else if let syn::Meta::NameValue(meta_name_value) = &attr.meta {
                 if let syn::Expr::Lit(syn::ExprLit {
                     lit: syn::Lit::Str(lit_str),
                     ..
                 }) = &meta_name_value.value
                 {
-                    comments.push(lit_str.value());
+                    comments.push(lit_str.value().trim().to_string());
                 }
             }
         }
